@@ -49,6 +49,11 @@ CHECKS = {
    note="Not modelled: the C type system and warning set (compiler verdicts are exploration). Trusted: gcc/g++, the scraper.",
    technique="Lean label-closure theorem tied to scraped text + covering-array compilation",
    design="5/C11"),
+ "C19": dict(cat="proof",
+   text="The flag table, level table and clusters of related flags are regenerated from nmfu.py into Lean on every run. Lean theorems for every option sequence (any length, order, repetitions): the override dict holds the last value per flag (lastVal_normalize); a flag outside every implies/exclusive list - every optimisation flag, decided on the generated table - ends as its last explicit value or else 'default or listed by a level <= the requested one' (resolve_get_unrelated), hence override-beats-level and levels-cumulative; for the related flags the kernel decides, over every assignment of every cluster, that implied flags are on, exclusive flags never both on, explicit exclusive pairs are errors (and only those), and reversed/rotated option orders agree with the sorted order. The mirror of load_commandline_flags is compared with the real function on every assignment of the related flags x levels (thorough: all 3^11 x 4), permutations, long random lines, malformed options.",
+   note="Order independence for all orders and 'full table = product of clusters' are checked exhaustively on the implementation/model by the harness, not proved. Trusted: translate.py, Lean kernel.",
+   technique="translator-generated tables + Lean theorems (general + kernel-decided) + exhaustive correspondence with the real resolver",
+   design="5/C19"),
 }
 
 def main():
